@@ -1,4 +1,236 @@
+(* P_C12.v — property C12: targets and returns are ordered deep merges;
+   evaluation is pure.  Statements only; proofs are in proofs/Overlay_proofs.v.
+   Model: model/Overlay.v (cel/prepare.py, cel/evaluation.py, cel/functions.py,
+   value_function/reconcile.py, resource_function/reconcile/__init__.py).
+
+   Every theorem assumes well-formed documents (wf / wf_doc: map keys unique,
+   which Python dicts guarantee).  Leaf evaluation is abstract in the index
+   theorems ([ev : doc -> option json], None = the expression fails) and is the
+   mini expression language of the model in the pipeline theorems.
+
+   PURITY.  "never modifies the inputs, the base, a cached template or the
+   function itself" cannot be stated in this heap-free model: all values are
+   immutable terms.  What can be stated is determinism (C12_eval_deterministic),
+   which is trivial.  The no-mutation clause is checked by the harness's
+   snapshot monitor on the real code (a test, not a proof). *)
 From Koreo Require Import Json Overlay Overlay_proofs.
-Theorem C12_eval_deterministic : forall en ov base, evaluate_overlay en ov base = evaluate_overlay en ov base.
+Local Open Scope list_scope.
+Local Open Scope nat_scope.
+
+(* ---- what "deep merge" means -------------------------------------------- *)
+
+(* "every other value (lists, scalars, empty maps) replaces": a leaf of the
+   evaluated overlay — anything but a non-empty map written in the overlay,
+   including a COMPUTED value that happens to be a map — is the result *)
+Theorem C12_leaf_replaces : forall v basev, merge_doc (OLeaf v) basev = v.
+Proof. exact merge_doc_leaf. Qed.
+
+(* … and those are exactly the documents the indexer does not descend into *)
+Theorem C12_what_is_a_leaf : forall ev d,
+  is_node d = false -> ev_tree ev d = option_map OLeaf (ev d).
+Proof. exact ev_tree_leaf. Qed.
+
+(* "maps merge key by key": under key k of the merged map one finds … *)
+Theorem C12_maps_merge_key_by_key : forall k m basev,
+  lookup k (as_map (merge_doc (ONode m) basev)) =
+  match lookup k m, lookup k (as_map basev) with
+  | Some t, Some bv => Some (merge_doc t bv)   (* in both: merged recursively *)
+  | Some t, None => Some (merge_doc t JNull)  (* only in the overlay *)
+  | None, other => other                      (* not in the overlay: untouched *)
+  end.
+Proof. exact lookup_merge_doc. Qed.
+
+(* … and the merged map has the base's keys, then the overlay's new keys *)
+Theorem C12_merge_keys : forall b fs,
+  keys (merge_keys b fs) = keys b ++ filter (fun k => negb (mem_str k (keys b))) (keys fs).
+Proof. exact keys_merge_keys. Qed.
+
+(* ---- the index arithmetic ------------------------------------------------ *)
+
+(* indexer_dense: the indexer numbers the leaf expressions b, b+1, … in
+   depth-first order, without gaps or repeats, whatever the running offset *)
+Theorem C12_indexer_dense : forall d b,
+  positions (fst (indexer d b)) = seq b (List.length (snd (indexer d b))).
+Proof. exact indexer_dense. Qed.
+
+(* indexer_applier_is_merge: for every document, running offset b, and
+   whatever other values surround this document's in the shared value list,
+   re-applying the index over ANY base gives the reference deep merge; no
+   IndexError/AttributeError is possible *)
+Theorem C12_indexer_applier_is_merge :
+  forall (ev : doc -> option json) d b pre vs post basev,
+    wf_doc d = true -> wf basev = true ->
+    List.length pre = b ->
+    mapM ev (snd (indexer d b)) = Some vs ->
+    exists t, ev_tree ev d = Some t /\
+              apply_index (fst (indexer d b)) basev (pre ++ vs ++ post) = Done (merge_doc t basev).
+Proof. exact indexer_applier_is_merge. Qed.
+
+(* a leaf expression fails to evaluate iff the reference cannot evaluate the document *)
+Theorem C12_indexer_eval_fails : forall (ev : doc -> option json) d b,
+  mapM ev (snd (indexer d b)) = None -> ev_tree ev d = None.
+Proof. exact indexer_eval_fails. Qed.
+
+(* prepare + evaluate_overlay = deep merge of the document over the base, its
+   leaves seeing the base as `resource`; PermFail iff a leaf fails *)
+Theorem C12_evaluate_overlay_is_merge : forall en spec ov base,
+  wf_doc (DMap spec) = true -> wf (JMap base) = true ->
+  prepare_overlay spec = Some ov ->
+  evaluate_overlay en ov base =
+  match ev_tree (eval_doc (set_key "resource" (JMap base) en)) (DMap spec) with
+  | Some t => Done (merge_doc t (JMap base))
+  | None => PermFail
+  end.
+Proof. exact evaluate_overlay_is_merge. Qed.
+
+(* ---- overlay() / the forced overlay -------------------------------------- *)
+
+(* deep_overlay_is_merge_val: functions._overlay is the value-level deep merge *)
+Theorem C12_deep_overlay_is_merge_val : forall ov resource,
+  wf (JMap ov) = true -> wf (JMap resource) = true ->
+  JMap (deep_overlay ov resource) = merge_val (JMap ov) (JMap resource).
+Proof. exact deep_overlay_is_merge_val. Qed.
+
+Theorem C12_merge_val_key_by_key : forall k om b,
+  lookup k (as_map (merge_val (JMap om) (JMap b))) =
+  match lookup k om, lookup k b with
+  | Some v, Some bv => Some (merge_val v bv)
+  | Some v, None => Some v
+  | None, other => other
+  end.
+Proof. exact lookup_merge_val. Qed.
+
+Theorem C12_merge_val_replaces : forall v b,
+  (forall m, v <> JMap m) \/ (forall m, b <> JMap m) -> merge_val v b = v.
+Proof. exact merge_val_replaces. Qed.
+
+(* ---- "a ValueFunction's return merges the same way over its base" -------- *)
+
+Theorem C12_vf_return_is_merge : forall f inputs vb,
+  wf_doc (DMap (sv_return f)) = true -> wf (JMap (base_of vb)) = true ->
+  sv_return f <> [] ->
+  reconcile_vf (prepare_vf f) inputs vb =
+  match vf_env (pv_locals (prepare_vf f)) inputs vb with
+  | None => PermFail
+  | Some full => ref_overlay full (sv_return f) (JMap (base_of vb))
+  end.
+Proof. exact vf_return_is_merge. Qed.
+
+(* ---- "the materialised Target Resource Specification equals the base with
+        each non-skipped overlay deep-merged in listed order" ---------------- *)
+
+(* [ref_step] = "unless skipIf is true, deep-merge this overlay (inline
+   document, or the overlayRef function's return) over the accumulated target";
+   [forced_merge forced] is the identity overlay of apiConfig (property C06),
+   applied to the template and once more after the overlays *)
+Theorem C12_target_is_fold : forall en tc t ss ps forced,
+  wf_env en = true -> wf_tcache tc -> wf_template t -> Forall wf_sstep ss ->
+  wf (JMap forced) = true ->
+  mapM prepare_step ss = Some ps ->
+  target en tc t ps forced =
+  rbind (template_value en tc t) (fun base =>
+    let start := forced_merge forced base in
+    match ss with
+    | [] => Done start
+    | _ => rmap (forced_merge forced) (fold_left (ref_step en) ss (Done start))
+    end).
+Proof. exact target_is_fold. Qed.
+
+(* the loop alone, without the forced overlay *)
+Theorem C12_overlays_fold_in_listed_order : forall en ss ps cur,
+  mapM prepare_step ss = Some ps -> Forall wf_sstep ss ->
+  wf_env en = true -> wf (JMap cur) = true ->
+  materialize_steps en ps cur = fold_left (ref_step en) ss (Done cur).
+Proof. exact materialize_steps_is_fold. Qed.
+
+(* a skipped overlay contributes nothing; a non-skipped inline overlay is one deep merge *)
+Theorem C12_step : forall en cur s,
+  ref_step en (Done cur) s =
+  rbind (skip_decision en (sstep_skip s)) (fun skip => if skip then Done cur else ref_apply en cur s).
+Proof. exact ref_step_done. Qed.
+
+(* create.overlay merges the same way over the target *)
+Theorem C12_create_is_merge : forall en spec view forced,
+  wf_env en = true -> wf_doc (DMap spec) = true -> wf (JMap view) = true -> wf (JMap forced) = true ->
+  create_view en (prepare_overlay spec) view forced =
+  rmap (forced_merge forced)
+    (match spec with
+     | [] => Done view
+     | _ => rbind (ref_overlay en spec (JMap view)) to_map
+     end).
+Proof. exact create_is_merge. Qed.
+
+(* ---- purity: only determinism is expressible ------------------------------ *)
+
+Theorem C12_eval_deterministic : forall en ov base r1 r2,
+  evaluate_overlay en ov base = r1 -> evaluate_overlay en ov base = r2 -> r1 = r2.
 Proof. exact eval_deterministic. Qed.
+
+Theorem C12_no_raise : forall en spec ov base e,
+  wf_doc (DMap spec) = true -> wf (JMap base) = true -> prepare_overlay spec = Some ov ->
+  evaluate_overlay en ov base <> Raised e.
+Proof. exact evaluate_overlay_no_raise. Qed.
+
+(* ---- non-vacuity ----------------------------------------------------------- *)
+
+(* a three-level overlay with siblings before and after a nested map (the
+   shape in which a wrong offset shows), an empty map, a list and a computed
+   map, over a base with every overlap pattern: hypotheses hold, the index is
+   the expected one and the result is the expected merge *)
+Example C12_nonvacuous :
+  let spec := [("a", DLeaf (EConst (JInt 1)));
+               ("b", DMap [("c", DLeaf (EPath "inputs" ["x"]));
+                           ("d", DMap [("e", DLeaf (EConst (JInt 2))); ("f", DMap [])]);
+                           ("g", DList [DMap [("h", DLeaf (EPath "resource" ["s"]))]])]);
+               ("s", DMap [("t", DLeaf (EPath "inputs" ["m"]))]);
+               ("z", DLeaf (EConst (JInt 3)))] in
+  let base := [("b", JMap [("c", JInt 0); ("d", JMap [("keep", JInt 9); ("f", JMap [("gone", JInt 1)])])]);
+               ("s", JStr "scalar"); ("a", JMap [("gone", JInt 1)])] in
+  let en := [("inputs", JMap [("x", JInt 7); ("m", JMap [("q", JInt 1)])])] in
+  wf_doc (DMap spec) = true /\ wf (JMap base) = true /\
+  exists ov, prepare_overlay spec = Some ov /\
+    ov_index ov = INode [("a", IPos 0);
+                         ("b", INode [("c", IPos 1); ("d", INode [("e", IPos 2); ("f", IPos 3)]); ("g", IPos 4)]);
+                         ("s", INode [("t", IPos 5)]); ("z", IPos 6)] /\
+    evaluate_overlay en ov base =
+    Done (JMap [("b", JMap [("c", JInt 7);
+                            ("d", JMap [("keep", JInt 9); ("f", JMap []); ("e", JInt 2)]);
+                            ("g", JList [JMap [("h", JStr "scalar")]])]);
+                ("s", JMap [("t", JMap [("q", JInt 1)])]);
+                ("a", JInt 1); ("z", JInt 3)]).
+Proof. vm_compute. repeat split. eexists. repeat split. Qed.
+
+(* the pipeline: template, forced overlay, one applied and one skipped overlay, forced overlay *)
+Example C12_nonvacuous_target :
+  let forced := [("kind", JStr "K"); ("metadata", JMap [("name", JStr "n")])] in
+  let ss := [SInline [("metadata", DMap [("name", DLeaf (EConst (JStr "other")));
+                                         ("labels", DMap [("l", DLeaf (EPath "resource" ["kind"]))])])] None;
+             SInline [("spec", DLeaf (EConst (JInt 1)))] (Some (EPath "inputs" ["skip"]))] in
+  let en := [("inputs", JMap [("skip", JBool true)])] in
+  Forall wf_sstep ss /\
+  exists ps, mapM prepare_step ss = Some ps /\
+    target en [] (STInline [("kind", DLeaf (EConst (JStr "Wrong"))); ("data", DLeaf (EConst (JInt 5)))]) ps forced =
+    Done [("kind", JStr "K"); ("data", JInt 5);
+          ("metadata", JMap [("name", JStr "n"); ("labels", JMap [("l", JStr "K")])])].
+Proof.
+  split; [repeat constructor|]. eexists. split; [reflexivity|]. vm_compute. reflexivity.
+Qed.
+
+Print Assumptions C12_leaf_replaces.
+Print Assumptions C12_what_is_a_leaf.
+Print Assumptions C12_maps_merge_key_by_key.
+Print Assumptions C12_merge_keys.
+Print Assumptions C12_indexer_dense.
+Print Assumptions C12_indexer_applier_is_merge.
+Print Assumptions C12_indexer_eval_fails.
+Print Assumptions C12_evaluate_overlay_is_merge.
+Print Assumptions C12_deep_overlay_is_merge_val.
+Print Assumptions C12_merge_val_key_by_key.
+Print Assumptions C12_merge_val_replaces.
+Print Assumptions C12_vf_return_is_merge.
+Print Assumptions C12_target_is_fold.
+Print Assumptions C12_overlays_fold_in_listed_order.
+Print Assumptions C12_step.
+Print Assumptions C12_create_is_merge.
 Print Assumptions C12_eval_deterministic.
+Print Assumptions C12_no_raise.
